@@ -760,7 +760,11 @@ package core
 //@   ensures[C05.sheens_returns_the_error]         result1 == matchErr
 //@   ensures[C05.sheens_passes_pattern_and_fact]   matchPat == pattern && matchFact == fact
 //@ ghost castCalls int
+//@ define castMapsKept() = forall(m, map[string]interface{}, !fresh(m) ==> len(m) == old(len(m))) && forall(m, map[string]interface{}, forall(k, string, !fresh(m) ==> has(m, k) == old(has(m, k)) && m[k] == old(m[k])))
+//@ define castSlicesKept() = forall(a, []interface{}, forall(i, int, !fresh(arr(a)) ==> a[i] == old(a[i])))
 //@ func cast
+//@   loop 1: invariant[C05.cast_map_loop_frame]   castMapsKept() && castSlicesKept()
+//@   loop 2: invariant[C05.cast_array_loop_frame] castMapsKept() && castSlicesKept()
 //@   ensures[C05.cast_map_is_a_fresh_copy]   is(iface, map[string]interface{}) || is(iface, Map) ==> is(result, map[string]interface{}) && fresh(result.(map[string]interface{}))
 //@   ensures[C05.cast_array_is_a_fresh_copy] is(iface, []interface{}) ==> is(result, []interface{}) && fresh(arr(result.([]interface{}))) && len(result.([]interface{})) == len(iface.([]interface{}))
 //@   ghost-ensures castCalls == old(castCalls) + 1
